@@ -143,6 +143,10 @@ static int run_once(const char *spec, const char *policy, char *items_in) {
             int rc = isreq ? htp_connp_req_data(cp, &tv, exact, bl) : htp_connp_res_data(cp, &tv, exact, bl);
             size_t cons = isreq ? htp_connp_req_data_consumed(cp) : htp_connp_res_data_consumed(cp);
             if (!documented(rc)) bad = 2;
+            {   /* what a caller does after a call: look at the last error the parser recorded (must never be a dangling pointer) */
+                htp_log_t *le = htp_connp_get_last_error(cp);
+                if (le != NULL) { volatile int lv = (int) le->level; (void) lv; if (le->msg) { volatile size_t ml = strlen(le->msg); (void) ml; } }
+            }
             if (getenv("AF_VERBOSE")) fprintf(stderr, "  %s len=%zu rc=%d consumed=%zu fired=%lu\n", isreq ? "req" : "res", bl, rc, cons, g_failed);
             int *st = isreq ? &in_sticky : &out_sticky;
             if (*st == HTP_STREAM_ERROR && rc != HTP_STREAM_ERROR) bad = 3;      /* ERROR must stay ERROR */
